@@ -233,10 +233,16 @@ struct App : AppSink {
                 if (!cl->alive()) break;
                 auto& r = new_op(OpKind::disconnect); op = r.id; disconnect_op = op;
                 r.disc_rc = a.rc; r.props = a.props; r.immediate_expected = a.expect_immediate; r.expect_ec = a.expect_ec;
+                mq::disconnect_props dp; l2r::from_ref(a.props, dp);
+                if (a.expect_immediate) {
+                    // the reference model says this request fails validation: the client is expected to stay as it is
+                    w.log(Ev::note, op, -1, 0, "script: async_disconnect with ill-formed properties (expected to be refused)");
+                    ++depth; cl->disconnect(op, a.rc, dp, a.with_slot); --depth;
+                    break;
+                }
                 w.log(Ev::terminal, op, 1, 0, "async_disconnect");
                 disconnect_incarnation[op] = incarnation;
                 terminal = true; w.terminal_called = true; ++incarnation;
-                mq::disconnect_props dp; l2r::from_ref(a.props, dp);
                 ++depth; cl->disconnect(op, a.rc, dp, a.with_slot); --depth;
                 break;
             }
